@@ -1,8 +1,919 @@
-(* C18 — lemmas and proofs about the model. *)
-From Coq Require Import List NArith ZArith Bool Lia.
-From Verif.C18 Require Import Model Spec.
+(* C18 — invariant of the three internal maps, its preservation by every operation, and the
+   refinement of the model to the two abstract maps of Spec.v. *)
+From Coq Require Import List NArith ZArith Bool Lia Permutation.
+From Verif.C18 Require Import Model Spec MapLemmas.
 Import ListNotations.
 Open Scope N_scope.
 
-Lemma placeholder_initial (V : Type) : des_get V (st0 V) 0 = None.
-Proof. reflexivity. Qed.
+Section P.
+  Variable V : Type.
+  Variable veq : V -> V -> bool.
+  Hypothesis veq_refl : forall a, veq a a = true.
+  Hypothesis veq_sym : forall a b, veq a b = veq b a.
+  Hypothesis veq_trans : forall a b c, veq a b = true -> veq b c = true -> veq a c = true.
+
+  Notation st := (st V).
+  Notation des_get := (des_get V).
+  Notation dp_get := (dp_get V).
+  Notation des_iter := (des_iter V).
+
+  (* per-key invariant of (inDataplaneAndDesired[k], inDataplaneNotDesired[k], desiredUpdates[k]) *)
+  Definition KInv (a n u : option V) : Prop :=
+    (a <> None -> n = None) /\ (u <> None -> n = None) /\
+    (forall x y, a = Some x -> u = Some y -> veq x y = false).
+
+  Record Inv (s : st) : Prop := {
+    inv_ad : NoDup (keys (AD s));
+    inv_nd : NoDup (keys (ND s));
+    inv_du : NoDup (keys (DU s));
+    inv_k : forall k, KInv (get (AD s) k) (get (ND s) k) (get (DU s) k);
+    inv_len : dlen s = Z.of_nat (length (des_iter s)) }.
+
+  Lemma get_des_iter s k : get (des_iter s) k = des_get s k.
+  Proof.
+    unfold Model.des_iter, Model.des_get. rewrite get_app.
+    destruct (get (DU s) k) eqn:E; [reflexivity|].
+    rewrite (get_filter_keys (fun k => negb (mem k (DU s)))). rewrite mem_get, E. reflexivity.
+  Qed.
+
+  Lemma NoDup_des_iter s : NoDup (keys (AD s)) -> NoDup (keys (DU s)) -> NoDup (keys (des_iter s)).
+  Proof.
+    intros Ha Hu. unfold Model.des_iter. apply NoDup_keys_app; auto.
+    - apply NoDup_keys_filter, Ha.
+    - intros k Hk. rewrite (get_filter_keys (fun k => negb (mem k (DU s)))), mem_get.
+      destruct (get (DU s) k); [reflexivity|congruence].
+  Qed.
+
+  (* desiredLen bookkeeping, from how the Desired view's key set changes *)
+  Lemma dlen_same s s' : NoDup (keys (AD s)) -> NoDup (keys (DU s)) -> NoDup (keys (AD s')) -> NoDup (keys (DU s')) ->
+    (forall k, des_get s' k <> None <-> des_get s k <> None) ->
+    length (des_iter s') = length (des_iter s).
+  Proof.
+    intros. apply card_same; auto using NoDup_des_iter. intros k. rewrite !get_des_iter. auto.
+  Qed.
+  Lemma dlen_insert k s s' : NoDup (keys (AD s)) -> NoDup (keys (DU s)) -> NoDup (keys (AD s')) -> NoDup (keys (DU s')) ->
+    (forall k', k' <> k -> (des_get s' k' <> None <-> des_get s k' <> None)) -> des_get s' k <> None ->
+    length (des_iter s') = match des_get s k with Some _ => length (des_iter s) | None => S (length (des_iter s)) end.
+  Proof.
+    intros. rewrite (card_insert k (des_iter s) (des_iter s')); auto using NoDup_des_iter.
+    - rewrite mem_get, get_des_iter. destruct (des_get s k); reflexivity.
+    - intros k' Hn. rewrite !get_des_iter. auto.
+    - rewrite get_des_iter. auto.
+  Qed.
+  Lemma dlen_remove k s s' : NoDup (keys (AD s)) -> NoDup (keys (DU s)) -> NoDup (keys (AD s')) -> NoDup (keys (DU s')) ->
+    (forall k', k' <> k -> (des_get s' k' <> None <-> des_get s k' <> None)) -> des_get s' k = None ->
+    length (des_iter s) = match des_get s k with Some _ => S (length (des_iter s')) | None => length (des_iter s') end.
+  Proof.
+    intros. rewrite (card_remove k (des_iter s) (des_iter s')); auto using NoDup_des_iter.
+    - rewrite mem_get, get_des_iter. destruct (des_get s k); reflexivity.
+    - intros k' Hn. rewrite !get_des_iter. auto.
+    - rewrite get_des_iter. auto.
+  Qed.
+
+  Ltac gs := rewrite ?get_set, ?get_del in *.
+  Ltac nd := cbn [AD ND DU dlen]; auto using NoDup_set, NoDup_del.
+
+  (* the new lookups after a single-key operation *)
+  Ltac keycase k k' := destruct (N.eqb_spec k k') as [<-|?].
+
+  Lemma Inv_st0 : Inv (st0 V).
+  Proof.
+    constructor; cbn [st0 AD ND DU dlen keys map]; try apply NoDup_nil.
+    - intros k. cbn. repeat split; congruence.
+    - reflexivity.
+  Qed.
+
+  (* ---------------- Desired().Set ---------------- *)
+  Lemma des_set_get k v s k' : Inv s ->
+    des_get (des_set V veq k v s) k' =
+      if N.eqb k k' then (match dp_get s k with
+                          | Some cur => if veq cur v then Some cur else Some v
+                          | None => Some v end)
+      else des_get s k'.
+  Proof.
+    intros I. destruct (inv_k s I k) as (K1 & K2 & K3).
+    unfold Model.des_set, Model.des_get, Model.dp_get.
+    destruct (get (ND s) k) as [cur|] eqn:En.
+    - assert (get (AD s) k = None) as Ea by (destruct (get (AD s) k); [discriminate K1; congruence|reflexivity]).
+      rewrite Ea. destruct (veq cur v); cbn [AD ND DU]; gs; keycase k k'; try reflexivity; rewrite ?Ea; reflexivity.
+    - destruct (get (AD s) k) as [cur|] eqn:Ea.
+      + destruct (veq cur v); cbn [AD ND DU]; gs; keycase k k'; try reflexivity; rewrite ?Ea; reflexivity.
+      + cbn [AD ND DU]; gs; keycase k k'; reflexivity.
+  Qed.
+
+  Lemma des_set_dp k v s k' : Inv s -> dp_get (des_set V veq k v s) k' = dp_get s k'.
+  Proof.
+    intros I. destruct (inv_k s I k) as (K1 & K2 & K3).
+    unfold Model.des_set, Model.dp_get.
+    destruct (get (ND s) k) as [cur|] eqn:En.
+    - assert (get (AD s) k = None) as Ea by (destruct (get (AD s) k); [discriminate K1; congruence|reflexivity]).
+      destruct (veq cur v); cbn [AD ND DU]; gs; keycase k k'; try reflexivity; rewrite Ea, En; reflexivity.
+    - destruct (get (AD s) k) as [cur|] eqn:Ea; [destruct (veq cur v)|]; reflexivity.
+  Qed.
+
+  (* brute-force tactic for the per-key invariant after a single-key operation on key k *)
+  Ltac kinv I k k' :=
+    let K := fresh "K" in let K' := fresh "K'" in
+    pose proof (inv_k _ I k) as K; pose proof (inv_k _ I k') as K';
+    unfold KInv in *; cbn [AD ND DU]; gs; keycase k k';
+    repeat match goal with H : get _ _ = _ |- _ => rewrite H in * end;
+    repeat split; intros; try congruence; try discriminate;
+    try (destruct K as (?&?&?); destruct K' as (?&?&?); eauto; fail).
+
+  Lemma des_set_inv k v s : Inv s -> Inv (des_set V veq k v s).
+  Proof.
+    intros I.
+    assert (NA : NoDup (keys (AD (des_set V veq k v s))) /\ NoDup (keys (ND (des_set V veq k v s))) /\ NoDup (keys (DU (des_set V veq k v s)))).
+    { destruct I. unfold Model.des_set. destruct (get (ND s) k); [destruct (veq v0 v)|destruct (get (AD s) k); [destruct (veq v0 v)|]]; nd. }
+    destruct NA as (N1 & N2 & N3).
+    constructor; auto.
+    - intros k'. destruct (inv_k s I k) as (K1 & K2 & K3). destruct (inv_k s I k') as (K1' & K2' & K3').
+      unfold Model.des_set.
+      destruct (get (ND s) k) as [cur|] eqn:En.
+      + assert (get (AD s) k = None) as Ea by (destruct (get (AD s) k); [discriminate K1; congruence|reflexivity]).
+        destruct (veq cur v) eqn:Ev; cbn [AD ND DU]; unfold KInv; gs; keycase k k'; repeat split; intros; try congruence; auto.
+      + destruct (get (AD s) k) as [cur|] eqn:Ea.
+        * destruct (veq cur v) eqn:Ev; cbn [AD ND DU]; unfold KInv; gs; keycase k k'; repeat split; intros; try congruence; auto.
+        * cbn [AD ND DU]; unfold KInv; gs; keycase k k'; repeat split; intros; try congruence; auto.
+    - assert (L := dlen_insert k s (des_set V veq k v s) (inv_ad s I) (inv_du s I) N1 N3).
+      rewrite L.
+      + destruct (inv_k s I k) as (K1 & K2 & K3). pose proof (inv_len s I) as IL.
+        unfold Model.des_set, Model.des_get.
+        destruct (get (ND s) k) as [cur|] eqn:En.
+        * assert (get (AD s) k = None) as Ea by (destruct (get (AD s) k); [discriminate K1; congruence|reflexivity]).
+          assert (get (DU s) k = None) as Eu by (destruct (get (DU s) k); [discriminate K2; congruence|reflexivity]).
+          rewrite Ea, Eu. destruct (veq cur v); cbn [dlen]; lia.
+        * destruct (get (AD s) k) as [cur|] eqn:Ea.
+          -- destruct (veq cur v); cbn [dlen]; destruct (get (DU s) k); lia.
+          -- cbn [dlen]. rewrite mem_get. destruct (get (DU s) k); lia.
+      + intros k'' Hn. rewrite des_set_get by assumption. destruct (N.eqb_spec k k''); [congruence|tauto].
+      + rewrite des_set_get by assumption. rewrite N.eqb_refl. destruct (dp_get s k); [destruct (veq v0 v)|]; congruence.
+  Qed.
+
+  Ltac none_of H := match type of H with _ -> ?x = None => destruct x eqn:?; [discriminate H; congruence|] end.
+  Ltac kgoal k k' := cbn [AD ND DU]; unfold KInv; gs; keycase k k'; repeat split; intros; try congruence; auto.
+
+  (* ---------------- Desired().Delete ---------------- *)
+  Lemma des_delete_get k s k' : des_get (des_delete V k s) k' = if N.eqb k k' then None else des_get s k'.
+  Proof.
+    unfold Model.des_delete, Model.des_get.
+    destruct (get (AD s) k) eqn:Ea; cbn [AD ND DU]; gs; keycase k k'; try reflexivity. rewrite Ea. reflexivity.
+  Qed.
+  Lemma des_delete_dp k s k' : Inv s -> dp_get (des_delete V k s) k' = dp_get s k'.
+  Proof.
+    intros I. unfold Model.des_delete, Model.dp_get.
+    destruct (get (AD s) k) eqn:Ea; cbn [AD ND DU]; gs; keycase k k'; try reflexivity. rewrite Ea. reflexivity.
+  Qed.
+  Lemma des_delete_inv k s : Inv s -> Inv (des_delete V k s).
+  Proof.
+    intros I.
+    assert (NA : NoDup (keys (AD (des_delete V k s))) /\ NoDup (keys (ND (des_delete V k s))) /\ NoDup (keys (DU (des_delete V k s)))).
+    { destruct I. unfold Model.des_delete. destruct (get (AD s) k); nd. }
+    destruct NA as (N1 & N2 & N3).
+    constructor; auto.
+    - intros k'. destruct (inv_k s I k) as (K1 & K2 & K3). destruct (inv_k s I k') as (K1' & K2' & K3').
+      unfold Model.des_delete. destruct (get (AD s) k) as [cur|] eqn:Ea; kgoal k k'.
+    - assert (L := dlen_remove k s (des_delete V k s) (inv_ad s I) (inv_du s I) N1 N3).
+      pose proof (inv_len s I) as IL. rewrite L in IL.
+      + revert IL. unfold Model.des_delete, Model.des_get. rewrite mem_get.
+        destruct (get (AD s) k) as [cur|] eqn:Ea; cbn [dlen AD ND DU]; destruct (get (DU s) k); lia.
+      + intros k'' Hn. rewrite des_delete_get. destruct (N.eqb_spec k k''); [congruence|tauto].
+      + rewrite des_delete_get, N.eqb_refl. reflexivity.
+  Qed.
+
+  (* ---------------- Dataplane().Set ---------------- *)
+  Lemma dp_set_get k v s k' :
+    des_get (dp_set V veq k v s) k' =
+      if N.eqb k k' then (match des_get s k with
+                          | Some dv => if veq dv v then Some v else Some dv
+                          | None => None end)
+      else des_get s k'.
+  Proof.
+    unfold Model.dp_set. destruct (des_get s k) as [dv|] eqn:Ed.
+    - unfold Model.des_get in *. destruct (veq dv v); cbn [AD ND DU]; gs; keycase k k'; reflexivity.
+    - unfold Model.des_get in *. cbn [AD ND DU]. keycase k k'; [assumption|reflexivity].
+  Qed.
+  Lemma dp_set_dp k v s k' : Inv s -> dp_get (dp_set V veq k v s) k' = if N.eqb k k' then Some v else dp_get s k'.
+  Proof.
+    intros I. unfold Model.dp_set. destruct (des_get s k) as [dv|] eqn:Ed.
+    - unfold Model.dp_get. destruct (veq dv v); cbn [AD ND DU]; gs; keycase k k'; reflexivity.
+    - unfold Model.dp_get, Model.des_get in *. cbn [AD ND DU]. gs.
+      destruct (get (DU s) k); [discriminate|]. keycase k k'; [rewrite Ed|]; reflexivity.
+  Qed.
+  Lemma dp_set_inv k v s : Inv s -> Inv (dp_set V veq k v s).
+  Proof.
+    intros I.
+    assert (NA : NoDup (keys (AD (dp_set V veq k v s))) /\ NoDup (keys (ND (dp_set V veq k v s))) /\ NoDup (keys (DU (dp_set V veq k v s)))).
+    { destruct I. unfold Model.dp_set. destruct (des_get s k); [destruct (veq v0 v)|]; nd. }
+    destruct NA as (N1 & N2 & N3).
+    constructor; auto.
+    - intros k'. destruct (inv_k s I k) as (K1 & K2 & K3). destruct (inv_k s I k') as (K1' & K2' & K3').
+      unfold Model.dp_set. destruct (des_get s k) as [dv|] eqn:Ed.
+      + assert (get (ND s) k = None) as En.
+        { unfold Model.des_get in Ed. destruct (get (DU s) k); [apply K2; congruence|apply K1; congruence]. }
+        destruct (veq dv v) eqn:Ev; kgoal k k'; try (rewrite veq_sym; congruence).
+      + unfold Model.des_get in Ed. destruct (get (DU s) k) eqn:Eu; [discriminate|]. kgoal k k'.
+    - rewrite (dlen_same s (dp_set V veq k v s)); auto using inv_ad, inv_du.
+      + rewrite <- (inv_len s I). unfold Model.dp_set. destruct (des_get s k); [destruct (veq v0 v)|]; reflexivity.
+      + intros k'. rewrite dp_set_get. keycase k k'; [|tauto].
+        destruct (des_get s k); [destruct (veq v0 v)|]; split; congruence.
+  Qed.
+
+  (* ---------------- Dataplane().Delete ---------------- *)
+  Lemma dp_delete_get k s k' : des_get (dp_delete V k s) k' = des_get s k'.
+  Proof.
+    unfold Model.dp_delete. destruct (des_get s k) as [dv|] eqn:Ed; unfold Model.des_get in *; cbn [AD ND DU]; gs;
+      keycase k k'; try reflexivity.
+    - destruct (get (DU s) k); congruence.
+    - destruct (get (DU s) k); [discriminate|]. congruence.
+  Qed.
+  Lemma dp_delete_dp k s k' : dp_get (dp_delete V k s) k' = if N.eqb k k' then None else dp_get s k'.
+  Proof.
+    unfold Model.dp_delete, Model.dp_get. destruct (des_get s k); cbn [AD ND DU]; gs; keycase k k'; reflexivity.
+  Qed.
+  Lemma dp_delete_inv k s : Inv s -> Inv (dp_delete V k s).
+  Proof.
+    intros I.
+    assert (NA : NoDup (keys (AD (dp_delete V k s))) /\ NoDup (keys (ND (dp_delete V k s))) /\ NoDup (keys (DU (dp_delete V k s)))).
+    { destruct I. unfold Model.dp_delete. destruct (des_get s k); nd. }
+    destruct NA as (N1 & N2 & N3).
+    constructor; auto.
+    - intros k'. destruct (inv_k s I k) as (K1 & K2 & K3). destruct (inv_k s I k') as (K1' & K2' & K3').
+      unfold Model.dp_delete. destruct (des_get s k) as [dv|] eqn:Ed; kgoal k k'.
+    - rewrite (dlen_same s (dp_delete V k s)); auto using inv_ad, inv_du.
+      + rewrite <- (inv_len s I). unfold Model.dp_delete. destruct (des_get s k); reflexivity.
+      + intros k'. rewrite dp_delete_get. tauto.
+  Qed.
+
+  (* ---------------- one turn of PendingUpdates().Iter / PendingDeletions().Iter ---------------- *)
+  Lemma pu_visit_get ka s k' : des_get (pu_visit V s ka) k' = des_get s k'.
+  Proof.
+    destruct ka as [k a]. unfold Model.pu_visit. destruct (get (DU s) k) as [v|] eqn:Eu; [|reflexivity].
+    destruct a; try reflexivity. unfold Model.des_get. cbn [AD ND DU]. gs. keycase k k'; [|reflexivity].
+    rewrite Eu. reflexivity.
+  Qed.
+  Lemma pu_visit_dp ka s k' : dp_get (pu_visit V s ka) k' =
+    match snd ka, get (DU s) (fst ka) with
+    | AUpd, Some v => if N.eqb (fst ka) k' then Some v else dp_get s k'
+    | _, _ => dp_get s k'
+    end.
+  Proof.
+    destruct ka as [k a]. cbn [fst snd]. unfold Model.pu_visit. destruct (get (DU s) k) as [v|] eqn:Eu; [|destruct a; reflexivity].
+    destruct a; try reflexivity. unfold Model.dp_get. cbn [AD ND DU]. gs. keycase k k'; reflexivity.
+  Qed.
+  Lemma pu_visit_inv ka s : Inv s -> Inv (pu_visit V s ka).
+  Proof.
+    intros I. destruct ka as [k a]. unfold Model.pu_visit. destruct (get (DU s) k) as [v|] eqn:Eu; [|assumption].
+    destruct a; try assumption.
+    constructor; cbn [AD ND DU dlen]; auto using NoDup_set, NoDup_del, inv_ad, inv_nd, inv_du.
+    - intros k'. destruct (inv_k s I k) as (K1 & K2 & K3). destruct (inv_k s I k') as (K1' & K2' & K3').
+      kgoal k k'. apply K2. congruence.
+    - rewrite (inv_len s I). f_equal. symmetry.
+      apply (dlen_same s (mk (set k v (AD s)) (ND s) (del k (DU s)) (dlen s))); cbn [AD ND DU]; auto using NoDup_set, NoDup_del, inv_ad, inv_nd, inv_du.
+      intros k'. unfold Model.des_get. cbn [AD ND DU]. gs. keycase k k'; [|tauto].
+      cbn [AD]. rewrite Eu. split; congruence.
+  Qed.
+
+  Lemma pd_visit_get ka s k' : des_get (pd_visit V s ka) k' = des_get s k'.
+  Proof.
+    destruct ka as [k a]. unfold Model.pd_visit. destruct (get (ND s) k); [|reflexivity]. destruct a; reflexivity.
+  Qed.
+  Lemma pd_visit_dp ka s k' : Inv s -> dp_get (pd_visit V s ka) k' =
+    match snd ka, get (ND s) (fst ka) with
+    | AUpd, Some _ => if N.eqb (fst ka) k' then None else dp_get s k'
+    | _, _ => dp_get s k'
+    end.
+  Proof.
+    intros I. destruct ka as [k a]. cbn [fst snd]. unfold Model.pd_visit. destruct (get (ND s) k) as [v|] eqn:En; [|destruct a; reflexivity].
+    destruct a; try reflexivity. unfold Model.dp_get. cbn [AD ND DU]. gs. keycase k k'; [|reflexivity].
+    destruct (inv_k s I k) as (K1 & K2 & K3). destruct (get (AD s) k); [|reflexivity]. rewrite K1 in En; congruence.
+  Qed.
+  Lemma pd_visit_inv ka s : Inv s -> Inv (pd_visit V s ka).
+  Proof.
+    intros I. destruct ka as [k a]. unfold Model.pd_visit. destruct (get (ND s) k) as [v|] eqn:En; [|assumption].
+    destruct a; try assumption.
+    constructor; cbn [AD ND DU dlen]; auto using NoDup_set, NoDup_del, inv_ad, inv_nd, inv_du.
+    - intros k'. destruct (inv_k s I k) as (K1 & K2 & K3). destruct (inv_k s I k') as (K1' & K2' & K3').
+      kgoal k k'.
+    - apply (inv_len s I).
+  Qed.
+
+  (* ---------------- opt_veq is an equivalence ---------------- *)
+  Notation oveq := (opt_veq V veq).
+  Lemma oveq_refl a : oveq a a = true.
+  Proof. destruct a; cbn; auto. Qed.
+  Lemma oveq_sym a b : oveq a b = oveq b a.
+  Proof. destruct a, b; cbn; auto. Qed.
+  Lemma oveq_trans a b c : oveq a b = true -> oveq b c = true -> oveq a c = true.
+  Proof. destruct a, b, c; cbn; try congruence. apply veq_trans. Qed.
+  Lemma oveq_dom a b : oveq a b = true -> (a <> None <-> b <> None).
+  Proof. destruct a, b; cbn; intros; split; congruence. Qed.
+
+  (* ---------------- folds of invariant-preserving steps ---------------- *)
+  Lemma fold_inv {A} (f : st -> A -> st) l : (forall s a, Inv s -> Inv (f s a)) -> forall s, Inv s -> Inv (fold_left f l s).
+  Proof. intros Hf. induction l; cbn [fold_left]; auto. Qed.
+  Lemma fold_same {A B} (g : st -> B) (f : st -> A -> st) l :
+    (forall s a, Inv s -> Inv (f s a)) -> (forall s a, Inv s -> g (f s a) = g s) ->
+    forall s, Inv s -> g (fold_left f l s) = g s.
+  Proof. intros Hf Hg. induction l; cbn [fold_left]; intros; [reflexivity|]. rewrite IHl; auto. Qed.
+
+  (* ---------------- Desired().DeleteAll ---------------- *)
+  Definition dall2 (s : st) (k : N) : st := if mem k (AD s) && negb (mem k (DU s)) then des_delete V k s else s.
+  Lemma dall2_inv s k : Inv s -> Inv (dall2 s k).
+  Proof. unfold dall2. destruct (_ && _); auto using des_delete_inv. Qed.
+
+  Lemma des_delete_all_inv s : Inv s -> Inv (des_delete_all V s).
+  Proof.
+    intros I. unfold Model.des_delete_all. apply (fold_inv dall2); [apply dall2_inv|].
+    apply (fold_inv (fun s k => des_delete V k s)); auto using des_delete_inv.
+  Qed.
+  Lemma des_delete_all_dp s k : Inv s -> dp_get (des_delete_all V s) k = dp_get s k.
+  Proof.
+    intros I. unfold Model.des_delete_all.
+    rewrite (fold_same (fun s => dp_get s k) dall2); [| apply dall2_inv | | ].
+    - apply (fold_same (fun s => dp_get s k) (fun s k => des_delete V k s)); auto using des_delete_inv.
+      intros. apply des_delete_dp; assumption.
+    - intros s0 a I0. unfold dall2. destruct (_ && _); [apply des_delete_dp; assumption|reflexivity].
+    - apply (fold_inv (fun s k => des_delete V k s)); auto using des_delete_inv.
+  Qed.
+
+  Lemma DU_des_delete k s k' : get (DU (des_delete V k s)) k' = if N.eqb k k' then None else get (DU s) k'.
+  Proof. unfold Model.des_delete. destruct (get (AD s) k); cbn [DU]; apply get_del. Qed.
+  Lemma AD_des_delete k s k' : get (AD (des_delete V k s)) k' = if N.eqb k k' then None else get (AD s) k'.
+  Proof.
+    unfold Model.des_delete. destruct (get (AD s) k) eqn:E; cbn [AD]; [apply get_del|].
+    keycase k k'; [assumption|reflexivity].
+  Qed.
+
+  Lemma fold1_DU ks : forall s k, get (DU (fold_left (fun s k => des_delete V k s) ks s)) k =
+    if existsb (N.eqb k) ks then None else get (DU s) k.
+  Proof.
+    induction ks as [|a ks IH]; intros s k; cbn [fold_left existsb]; [reflexivity|].
+    rewrite IH, DU_des_delete. rewrite (N.eqb_sym k a). destruct (N.eqb a k); cbn [orb]; [destruct (existsb _ ks)|]; reflexivity.
+  Qed.
+  Lemma existsb_keys (m : amap V) k : existsb (N.eqb k) (keys m) = mem k m.
+  Proof.
+    rewrite mem_get. induction m as [|[a v] m IH]; [reflexivity|]. cbn [keys map fst existsb get].
+    rewrite (N.eqb_sym k a). destruct (N.eqb a k); [reflexivity|apply IH].
+  Qed.
+  Lemma fold2_props ks : forall s, (forall k, get (DU s) k = None) ->
+    (forall k, get (DU (fold_left dall2 ks s)) k = None) /\
+    (forall k, get (AD (fold_left dall2 ks s)) k = if existsb (N.eqb k) ks then None else get (AD s) k).
+  Proof.
+    induction ks as [|a ks IH]; intros s E; cbn [fold_left existsb]; [auto|].
+    assert (E1 : forall k, get (DU (dall2 s a)) k = None).
+    { intros k. unfold dall2. destruct (_ && _); [rewrite DU_des_delete; destruct (N.eqb a k)|]; auto. }
+    destruct (IH _ E1) as (H1 & H2). split; [assumption|]. intros k. rewrite H2.
+    destruct (existsb (N.eqb k) ks); [rewrite orb_true_r; reflexivity|]. rewrite orb_false_r.
+    unfold dall2. rewrite !mem_get, E. cbn [negb]. rewrite andb_true_r.
+    destruct (get (AD s) a) eqn:Ea.
+    - rewrite AD_des_delete, (N.eqb_sym k a). reflexivity.
+    - keycase k a; [|reflexivity]. exact Ea.
+  Qed.
+  Lemma des_delete_all_get s k : des_get (des_delete_all V s) k = None.
+  Proof.
+    unfold Model.des_delete_all. set (s1 := fold_left (fun s k => des_delete V k s) (keys (DU s)) s).
+    assert (E : forall k, get (DU s1) k = None).
+    { intros k0. unfold s1. rewrite fold1_DU, existsb_keys, mem_get. destruct (get (DU s) k0); reflexivity. }
+    destruct (fold2_props (keys (AD s1)) s1 E) as (H1 & H2).
+    change (fold_left _ (keys (AD s1)) s1) with (fold_left dall2 (keys (AD s1)) s1).
+    unfold Model.des_get. rewrite H1, H2, existsb_keys, mem_get. destruct (get (AD s1) k); reflexivity.
+  Qed.
+
+  (* ---------------- Dataplane().ReplaceAllIter ---------------- *)
+  Notation rst := (rst V).
+  Definition dget (r : rst) (k : N) : option V :=
+    match get (rdu r) k with Some x => Some x | None =>
+      match get (oad r) k with Some x => Some x | None => get (nad r) k end end.
+  Definition ndp (r : rst) (k : N) : option V := match get (nad r) k with Some x => Some x | None => get (nnd r) k end.
+  Definition odp (r : rst) (k : N) : option V := match get (oad r) k with Some x => Some x | None => get (ond r) k end.
+
+  (* per-key invariant of the five maps while the iterator runs *)
+  Definition KJ (oa on na nn u : option V) : Prop :=
+    (oa <> None -> on = None /\ na = None /\ nn = None) /\
+    (on <> None -> na = None /\ nn = None) /\
+    (na <> None -> nn = None) /\
+    (u <> None -> on = None /\ nn = None) /\
+    (forall x y, oa = Some x -> u = Some y -> veq x y = false) /\
+    (forall x y, na = Some x -> u = Some y -> veq x y = false).
+  Record J (r : rst) : Prop := {
+    j_oad : NoDup (keys (oad r)); j_ond : NoDup (keys (ond r)); j_nad : NoDup (keys (nad r));
+    j_nnd : NoDup (keys (nnd r)); j_rdu : NoDup (keys (rdu r));
+    j_k : forall k, KJ (get (oad r) k) (get (ond r) k) (get (nad r) k) (get (nnd r) k) (get (rdu r) k) }.
+
+  (* the last value the iterator produced for k *)
+  Fixpoint lastget (kvs : list (N * V)) (k : N) : option V :=
+    match kvs with
+    | [] => None
+    | (a, v) :: kvs' => match lastget kvs' k with Some x => Some x | None => if N.eqb a k then Some v else None end
+    end.
+
+  Lemma repl_cb_step r k v : J r ->
+    let r' := repl_cb V veq true r (k, v) in
+    J r' /\
+    (forall k', ndp r' k' = if N.eqb k k' then Some v else ndp r k') /\
+    (forall k', odp r' k' = if N.eqb k k' then None else odp r k') /\
+    (forall k', oveq (dget r' k') (dget r k') = true).
+  Proof.
+    intros Jr. cbn zeta. unfold Model.repl_cb.
+    fold (dget r k).
+    destruct (j_k r Jr k) as (A1 & A2 & A3 & A4 & A5 & A6).
+    destruct (dget r k) as [dv|] eqn:Ed.
+    - assert (Enn : get (nnd r) k = None).
+      { unfold dget in Ed. destruct (get (rdu r) k); [apply A4; congruence|].
+        destruct (get (oad r) k); [apply A1; congruence|]. apply A3. congruence. }
+      split; [|split; [|split]].
+      + constructor; cbn [oad ond nad nnd rdu]; auto using NoDup_del, NoDup_set, j_oad, j_ond, j_nad, j_nnd, j_rdu.
+        { destruct (veq dv v); auto using NoDup_del, NoDup_set, j_rdu. }
+        intros k'. destruct (j_k r Jr k') as (B1 & B2 & B3 & B4 & B5 & B6).
+        destruct (veq dv v) eqn:Ev; unfold KJ; gs; keycase k k'; repeat split; intros; try congruence; auto;
+          try (rewrite veq_sym; congruence); try solve [intuition (eauto; congruence)].
+      + intros k'. unfold ndp. cbn [nad nnd]. gs. keycase k k'; reflexivity.
+      + intros k'. unfold odp. cbn [oad ond]. gs. keycase k k'; reflexivity.
+      + intros k'. unfold dget in *. cbn [oad nad rdu].
+        destruct (veq dv v) eqn:Ev; gs; keycase k k'; try apply oveq_refl.
+        * (* value agreed: the key now lives in the new map with the dataplane's value *)
+          destruct (get (rdu r) k); [inversion Ed; subst; cbn; rewrite veq_sym; exact Ev|].
+          destruct (get (oad r) k); [inversion Ed; subst; cbn; rewrite veq_sym; exact Ev|].
+          rewrite Ed. cbn. rewrite veq_sym. exact Ev.
+        * destruct (get (rdu r) k); [inversion Ed; subst; apply oveq_refl|].
+          destruct (get (oad r) k); [inversion Ed; subst; apply oveq_refl|].
+          rewrite Ed. apply oveq_refl.
+    - assert (get (rdu r) k = None /\ get (oad r) k = None /\ get (nad r) k = None) as (Eu & Eoa & Ena).
+      { unfold dget in Ed. destruct (get (rdu r) k); [discriminate|]. destruct (get (oad r) k); [discriminate|]. auto. }
+      split; [|split; [|split]].
+      + constructor; cbn [oad ond nad nnd rdu]; auto using NoDup_del, NoDup_set, j_oad, j_ond, j_nad, j_nnd, j_rdu.
+        intros k'. destruct (j_k r Jr k') as (B1 & B2 & B3 & B4 & B5 & B6).
+        unfold KJ; gs; keycase k k'; repeat split; intros; try congruence; auto; try solve [intuition (eauto; congruence)].
+      + intros k'. unfold ndp. cbn [nad nnd]. gs. keycase k k'; [rewrite Ena|]; reflexivity.
+      + intros k'. unfold odp. cbn [oad ond]. gs. keycase k k'; reflexivity.
+      + intros k'. unfold dget. cbn [oad nad rdu]. gs. keycase k k'; [|apply oveq_refl].
+        rewrite Eu, Eoa, Ena. reflexivity.
+  Qed.
+
+  Lemma repl_fold kvs : forall r, J r ->
+    let r' := fold_left (repl_cb V veq true) kvs r in
+    J r' /\
+    (forall k, ndp r' k = match lastget kvs k with Some v => Some v | None => ndp r k end) /\
+    (forall k, odp r' k = match lastget kvs k with Some _ => None | None => odp r k end) /\
+    (forall k, oveq (dget r' k) (dget r k) = true).
+  Proof.
+    induction kvs as [|[a v] kvs IH]; intros r Jr; cbn [fold_left lastget]; cbn zeta.
+    - split; [assumption|split; [|split]]; intros; [reflexivity|reflexivity|apply oveq_refl].
+    - destruct (repl_cb_step r a v Jr) as (J1 & N1 & O1 & D1).
+      destruct (IH _ J1) as (J2 & N2 & O2 & D2). cbn zeta in *.
+      split; [assumption|]. split; [|split].
+      + intros k. rewrite N2, N1. destruct (lastget kvs k); [reflexivity|]. destruct (N.eqb a k); reflexivity.
+      + intros k. rewrite O2, O1. destruct (lastget kvs k); [reflexivity|]. destruct (N.eqb a k); reflexivity.
+      + intros k. eapply oveq_trans; [apply D2|apply D1].
+  Qed.
+
+  (* with no key produced twice the pinned code behaves like the repaired one *)
+  Lemma repl_fold_nodup kvs : forall r, NoDup (keys kvs) -> (forall k, In k (keys kvs) -> get (nad r) k = None) ->
+    fold_left (repl_cb V veq false) kvs r = fold_left (repl_cb V veq true) kvs r.
+  Proof.
+    induction kvs as [|[a v] kvs IH]; intros r ND Hn; cbn [fold_left]; [reflexivity|].
+    cbn [keys map fst] in ND, Hn. fold (keys kvs) in *. inversion ND; subst.
+    assert (E : repl_cb V veq false r (a, v) = repl_cb V veq true r (a, v)).
+    { unfold Model.repl_cb. rewrite (Hn a) by (left; reflexivity). reflexivity. }
+    rewrite E. apply IH; [assumption|].
+    intros k Hk. unfold Model.repl_cb.
+    assert (a <> k) by (intros ->; contradiction).
+    destruct (match get (rdu r) a with Some x => Some x | None => _ end); cbn [nad]; gs;
+      try (destruct (N.eqb_spec a k); [congruence|]); apply Hn; right; assumption.
+  Qed.
+
+  Lemma J_init s : Inv s -> J (mkr (AD s) (ND s) [] [] (DU s)).
+  Proof.
+    intros I. constructor; cbn [oad ond nad nnd rdu]; try apply NoDup_nil; try (apply I).
+    intros k. destruct (inv_k s I k) as (K1 & K2 & K3). unfold KJ. cbn [get].
+    repeat split; intros; try congruence; auto.
+  Qed.
+
+  Lemma tail_du (o : amap V) : forall du,
+    let du' := fold_left (fun du p => match get du (fst p) with Some _ => du | None => set (fst p) (snd p) du end) o du in
+    (NoDup (keys du) -> NoDup (keys du')) /\
+    (forall k, get du' k = match get du k with Some x => Some x | None => get o k end).
+  Proof.
+    induction o as [|[a v] o IH]; intros du; cbn [fold_left fst snd get]; cbn zeta.
+    - split; [auto|]. intros k. destruct (get du k); reflexivity.
+    - destruct (get du a) eqn:Ea.
+      + destruct (IH du) as (H1 & H2). cbn zeta in *. split; [assumption|]. intros k. rewrite H2.
+        destruct (get du k) eqn:Ek; [reflexivity|]. destruct (N.eqb_spec a k); [congruence|reflexivity].
+      + destruct (IH (set a v du)) as (H1 & H2). cbn zeta in *. split; [auto using NoDup_set|]. intros k. rewrite H2.
+        gs. destruct (N.eqb_spec a k) as [->|]; [rewrite Ea; reflexivity|reflexivity].
+  Qed.
+
+  (* the outcome of ReplaceAllIter (repaired lookup) *)
+  Lemma dp_replace_fixed kvs err s : Inv s ->
+    let s' := dp_replace V veq true kvs err s in
+    Inv s' /\
+    (forall k, oveq (des_get s' k) (des_get s k) = true) /\
+    (forall k, dp_get s' k = match lastget kvs k with
+                             | Some v => Some v
+                             | None => if err then dp_get s k else None end).
+  Proof.
+    intros I. cbn zeta. unfold Model.dp_replace.
+    destruct (repl_fold kvs _ (J_init s I)) as (Jr & Nr & Or & Dr). cbn zeta in *.
+    set (r := fold_left (repl_cb V veq true) kvs (mkr (AD s) (ND s) [] [] (DU s))) in *.
+    assert (D0 : forall k, dget (mkr (AD s) (ND s) [] [] (DU s)) k = des_get s k).
+    { intros k. unfold dget, Model.des_get. cbn [oad nad rdu get]. destruct (get (DU s) k); [|destruct (get (AD s) k)]; reflexivity. }
+    destruct err.
+    - (* the iterator failed: new maps are copied back over what is left of the old ones *)
+      assert (GA : forall k, get (copy_into (oad r) (nad r)) k = match get (nad r) k with Some x => Some x | None => get (oad r) k end)
+        by (intros; apply get_copy_into, (j_nad r Jr)).
+      assert (GN : forall k, get (copy_into (ond r) (nnd r)) k = match get (nnd r) k with Some x => Some x | None => get (ond r) k end)
+        by (intros; apply get_copy_into, (j_nnd r Jr)).
+      assert (DG : forall dl k, des_get (mk (copy_into (oad r) (nad r)) (copy_into (ond r) (nnd r)) (rdu r) dl) k = dget r k).
+      { intros dl k. unfold Model.des_get, dget. cbn [AD DU]. rewrite GA.
+        destruct (j_k r Jr k) as (A1 & A2 & A3 & A4 & A5 & A6).
+        destruct (get (rdu r) k); [reflexivity|]. destruct (get (oad r) k) eqn:Eo; [|destruct (get (nad r) k); reflexivity].
+        destruct A1 as (_ & -> & _); [congruence|reflexivity]. }
+      split; [|split].
+      + constructor; cbn [AD ND DU dlen]; auto using NoDup_copy_into, j_oad, j_ond, j_rdu.
+        * intros k. rewrite GA, GN. destruct (j_k r Jr k) as (A1 & A2 & A3 & A4 & A5 & A6). unfold KInv.
+          destruct (get (oad r) k), (get (ond r) k), (get (nad r) k), (get (nnd r) k); repeat split; intros; try congruence; auto;
+            try (destruct A1 as (?&?&?); congruence); try (destruct A2 as (?&?); congruence); try (destruct A4 as (?&?); congruence);
+            try (rewrite A3 in *; congruence); eauto.
+        * rewrite (inv_len s I). f_equal. symmetry. apply dlen_same; cbn [AD DU]; auto using NoDup_copy_into, j_oad, j_rdu, inv_ad, inv_du.
+          intros k. rewrite DG. rewrite <- D0. apply oveq_dom, Dr.
+      + intros k. rewrite DG, <- D0. apply Dr.
+      + intros k. unfold Model.dp_get. cbn [AD ND]. rewrite GA, GN.
+        specialize (Nr k). specialize (Or k). unfold ndp, odp in Nr, Or. cbn [oad ond nad nnd get] in Nr, Or.
+        destruct (j_k r Jr k) as (A1 & A2 & A3 & A4 & A5 & A6).
+        destruct (lastget kvs k).
+        * destruct (get (nad r) k); [assumption|]. rewrite Nr.
+          destruct (get (oad r) k); [discriminate|]. reflexivity.
+        * destruct (get (nad r) k); [discriminate|]. rewrite Nr. exact Or.
+    - (* success *)
+      destruct (tail_du (oad r) (rdu r)) as (T1 & T2). cbn zeta in *.
+      set (du' := fold_left _ (oad r) (rdu r)) in *.
+      assert (DG : forall dl k, des_get (mk (nad r) (nnd r) du' dl) k = dget r k).
+      { intros dl k. unfold Model.des_get, dget. cbn [AD DU]. rewrite T2.
+        destruct (get (rdu r) k); [reflexivity|]. destruct (get (oad r) k) eqn:Eo; reflexivity. }
+      split; [|split].
+      + constructor; cbn [AD ND DU dlen]; auto using j_nad, j_nnd, j_rdu.
+        * intros k. rewrite T2. destruct (j_k r Jr k) as (A1 & A2 & A3 & A4 & A5 & A6). unfold KInv.
+          destruct (get (oad r) k), (get (rdu r) k), (get (nad r) k), (get (nnd r) k); repeat split; intros; try congruence; auto;
+            try (destruct A1 as (?&?&?); congruence); try (destruct A4 as (?&?); congruence);
+            try (rewrite A3 in *; congruence); eauto.
+        * rewrite (inv_len s I). f_equal. symmetry. apply dlen_same; cbn [AD DU]; auto using j_nad, j_rdu, inv_ad, inv_du.
+          intros k. rewrite DG. rewrite <- D0. apply oveq_dom, Dr.
+      + intros k. rewrite DG, <- D0. apply Dr.
+      + intros k. unfold Model.dp_get. cbn [AD ND]. specialize (Nr k). unfold ndp in Nr. cbn [nad nnd get] in Nr.
+        rewrite Nr. destruct (lastget kvs k); reflexivity.
+  Qed.
+
+  (* ---------------- the views are the exact difference ---------------- *)
+  Lemma inv_pu s k : Inv s -> pu_get V s k = pending_update V veq (des_get s) (dp_get s) k.
+  Proof.
+    intros I. destruct (inv_k s I k) as (K1 & K2 & K3).
+    unfold Model.pu_get, pending_update, Model.des_get, Model.dp_get.
+    destruct (get (DU s) k) as [u|] eqn:Eu.
+    - rewrite K2 by congruence. destruct (get (AD s) k) as [a|] eqn:Ea; [|reflexivity].
+      rewrite (K3 a u); auto.
+    - destruct (get (AD s) k) as [a|]; [|reflexivity]. rewrite veq_refl. reflexivity.
+  Qed.
+  Lemma inv_pd s k : Inv s -> pd_get V s k = pending_del V (des_get s) (dp_get s) k.
+  Proof.
+    intros I. destruct (inv_k s I k) as (K1 & K2 & K3).
+    unfold Model.pd_get, pending_del, Model.des_get, Model.dp_get.
+    destruct (get (ND s) k) as [n|] eqn:En.
+    - destruct (get (AD s) k); [discriminate K1; congruence|]. destruct (get (DU s) k); [discriminate K2; congruence|]. reflexivity.
+    - destruct (get (AD s) k); [|reflexivity]. destruct (get (DU s) k); reflexivity.
+  Qed.
+
+  Lemma veq_true_l a b c : veq a b = true -> veq a c = veq b c.
+  Proof.
+    intros H. destruct (veq b c) eqn:E.
+    - eapply veq_trans; eauto.
+    - destruct (veq a c) eqn:E'; [|reflexivity]. rewrite <- E. symmetry. eapply veq_trans; [|exact E']. rewrite veq_sym. exact H.
+  Qed.
+
+  Lemma pending_update_oveq (D P D' P' : N -> option V) k :
+    oveq (D k) (D' k) = true -> oveq (P k) (P' k) = true ->
+    oveq (pending_update V veq D P k) (pending_update V veq D' P' k) = true.
+  Proof.
+    unfold pending_update. destruct (D k) as [d|], (D' k) as [d'|]; cbn; try congruence; intros Hd.
+    destruct (P k) as [p|], (P' k) as [p'|]; cbn; try congruence; intros Hp.
+    rewrite (veq_true_l p p' d Hp), (veq_sym p' d), (veq_true_l d d' p' Hd), (veq_sym d' p').
+    destruct (veq p' d'); cbn; auto.
+  Qed.
+  Lemma pending_del_oveq (D P D' P' : N -> option V) k :
+    oveq (D k) (D' k) = true -> oveq (P k) (P' k) = true ->
+    oveq (pending_del V D P k) (pending_del V D' P' k) = true.
+  Proof.
+    unfold pending_del. destruct (D k), (D' k), (P k), (P' k); cbn; congruence.
+  Qed.
+
+  (* ---------------- refinement relation to the abstract pair (D, P) ---------------- *)
+  Definition R (s : st) (DP : amap V * amap V) : Prop :=
+    (forall k, oveq (des_get s k) (get (fst DP) k) = true) /\
+    (forall k, oveq (dp_get s k) (get (snd DP) k) = true).
+
+  Lemma get_of_list kvs : forall (m : amap V) k,
+    get (of_list V kvs m) k = match lastget kvs k with Some v => Some v | None => get m k end.
+  Proof.
+    unfold of_list. induction kvs as [|[a v] kvs IH]; intros m k; cbn [fold_left lastget fst snd]; [reflexivity|].
+    rewrite IH. destruct (lastget kvs k); [reflexivity|]. rewrite get_set. destruct (N.eqb a k); reflexivity.
+  Qed.
+
+  (* which Replace operations the pinned code handles: no key produced twice *)
+  Definition op_ok (fixed : bool) (o : op V) : Prop :=
+    match o with Replace kvs _ => fixed = true \/ NoDup (keys kvs) | _ => True end.
+
+  Lemma dp_replace_any fixed kvs err s : fixed = true \/ NoDup (keys kvs) ->
+    dp_replace V veq fixed kvs err s = dp_replace V veq true kvs err s.
+  Proof.
+    intros [->|ND]; [reflexivity|]. destruct fixed; [reflexivity|].
+    unfold Model.dp_replace. rewrite repl_fold_nodup; auto.
+  Qed.
+
+  Lemma pu_visit_R s DP ka : Inv s -> R s DP -> R (pu_visit V s ka) (a_pu_visit V veq DP ka).
+  Proof.
+    intros I [Rd Rp]. destruct DP as [D P]. cbn [fst snd] in *. unfold a_pu_visit.
+    split; cbn [fst snd].
+    - intros k'. rewrite pu_visit_get. destruct (snd ka); [| destruct (pending_update _ _ _ _ _) |]; apply Rd.
+    - intros k'. rewrite pu_visit_dp.
+      assert (X := pending_update_oveq (des_get s) (dp_get s) (get D) (get P) (fst ka) (Rd _) (Rp _)).
+      rewrite <- (inv_pu s (fst ka) I) in X. unfold Model.pu_get in X.
+      destruct (snd ka); try apply Rp.
+      destruct (get (DU s) (fst ka)) as [v|], (pending_update V veq (get D) (get P) (fst ka)) as [d|]; cbn in X; try congruence; try apply Rp.
+      cbn [snd]. rewrite get_set. destruct (N.eqb (fst ka) k'); [exact X|apply Rp].
+  Qed.
+  Lemma pd_visit_R s DP ka : Inv s -> R s DP -> R (pd_visit V s ka) (a_pd_visit V DP ka).
+  Proof.
+    intros I [Rd Rp]. destruct DP as [D P]. cbn [fst snd] in *. unfold a_pd_visit.
+    split; cbn [fst snd].
+    - intros k'. rewrite pd_visit_get. destruct (snd ka); [| destruct (pending_del _ _ _ _) |]; apply Rd.
+    - intros k'. rewrite pd_visit_dp by assumption.
+      assert (X := pending_del_oveq (des_get s) (dp_get s) (get D) (get P) (fst ka) (Rd _) (Rp _)).
+      rewrite <- (inv_pd s (fst ka) I) in X. unfold Model.pd_get in X.
+      destruct (snd ka); try apply Rp.
+      destruct (get (ND s) (fst ka)) as [v|], (pending_del V (get D) (get P) (fst ka)) as [d|]; cbn in X; try congruence; try apply Rp.
+      cbn [snd]. rewrite get_del. destruct (N.eqb (fst ka) k'); [reflexivity|apply Rp].
+  Qed.
+
+  Lemma fold_visit_R (f : st -> N * act -> st) (g : amap V * amap V -> N * act -> amap V * amap V) tr :
+    (forall s ka, Inv s -> Inv (f s ka)) -> (forall s DP ka, Inv s -> R s DP -> R (f s ka) (g DP ka)) ->
+    forall s DP, Inv s -> R s DP -> R (fold_left f tr s) (fold_left g tr DP).
+  Proof. intros Hi Hr. induction tr; cbn [fold_left]; auto. Qed.
+
+  Lemma step_inv fixed s o : op_ok fixed o -> Inv s -> Inv (step V veq fixed s o).
+  Proof.
+    intros Ho I. destruct o; cbn [step].
+    - apply des_set_inv, I.
+    - apply des_delete_inv, I.
+    - apply des_delete_all_inv, I.
+    - apply dp_set_inv, I.
+    - apply dp_delete_inv, I.
+    - rewrite dp_replace_any by (right; constructor). apply (dp_replace_fixed [] false s I).
+    - rewrite dp_replace_any by exact Ho. apply (dp_replace_fixed kvs err s I).
+    - apply (fold_inv (pu_visit V)); auto using pu_visit_inv.
+    - apply (fold_inv (pd_visit V)); auto using pd_visit_inv.
+  Qed.
+
+  Lemma step_R fixed s DP o : op_ok fixed o -> Inv s -> R s DP -> R (step V veq fixed s o) (a_step V veq DP o).
+  Proof.
+    intros Ho I [Rd Rp]. destruct DP as [D P]. cbn [fst snd] in *.
+    destruct o; cbn [step a_step].
+    - split; cbn [fst snd]; intros k'.
+      + rewrite des_set_get by assumption. gs. destruct (N.eqb k k'); [|apply Rd].
+        destruct (dp_get s k) as [cur|]; [destruct (veq cur v) eqn:E|]; cbn; auto.
+      + rewrite des_set_dp by assumption. apply Rp.
+    - split; cbn [fst snd]; intros k'.
+      + rewrite des_delete_get. gs. destruct (N.eqb k k'); [reflexivity|apply Rd].
+      + rewrite des_delete_dp by assumption. apply Rp.
+    - split; cbn [fst snd]; intros k'.
+      + rewrite des_delete_all_get. reflexivity.
+      + rewrite des_delete_all_dp by assumption. apply Rp.
+    - split; cbn [fst snd]; intros k'.
+      + rewrite dp_set_get. destruct (N.eqb_spec k k') as [<-|]; [|apply Rd].
+        specialize (Rd k). destruct (des_get s k) as [dv|]; [|exact Rd]. destruct (veq dv v) eqn:E; [|exact Rd].
+        destruct (get D k) as [d|]; cbn in *; [|congruence]. rewrite <- (veq_true_l dv v d E). exact Rd.
+      + rewrite dp_set_dp by assumption. gs. destruct (N.eqb k k'); [cbn; auto|apply Rp].
+    - split; cbn [fst snd]; intros k'.
+      + rewrite dp_delete_get. apply Rd.
+      + rewrite dp_delete_dp. gs. destruct (N.eqb k k'); [reflexivity|apply Rp].
+    - rewrite dp_replace_any by (right; constructor).
+      destruct (dp_replace_fixed [] false s I) as (_ & H1 & H2). cbn zeta in *.
+      split; cbn [fst snd]; intros k'.
+      + eapply oveq_trans; [apply H1|apply Rd].
+      + rewrite H2. reflexivity.
+    - rewrite dp_replace_any by exact Ho.
+      destruct (dp_replace_fixed kvs err s I) as (_ & H1 & H2). cbn zeta in *.
+      destruct err; split; cbn [fst snd]; intros k'; try (eapply oveq_trans; [apply H1|apply Rd]);
+        rewrite H2, get_of_list; destruct (lastget kvs k'); cbn; auto; apply Rp.
+    - apply (fold_visit_R (pu_visit V) (a_pu_visit V veq)); auto using pu_visit_inv, pu_visit_R.
+      split; assumption.
+    - apply (fold_visit_R (pd_visit V) (a_pd_visit V)); auto using pd_visit_inv, pd_visit_R.
+      split; assumption.
+  Qed.
+
+  Lemma run_from fixed ops : Forall (op_ok fixed) ops -> forall s DP, Inv s -> R s DP ->
+    Inv (fold_left (step V veq fixed) ops s) /\ R (fold_left (step V veq fixed) ops s) (fold_left (a_step V veq) ops DP).
+  Proof.
+    induction 1 as [|o ops Ho Hops IH]; intros s DP I HR; cbn [fold_left]; [auto|].
+    apply IH; [apply step_inv|apply step_R]; assumption.
+  Qed.
+
+  Lemma R_init : R (st0 V) ([], []).
+  Proof. split; intros k; reflexivity. Qed.
+
+  (* ================= main results ================= *)
+  Definition views_of (s : st) : views V := Views (des_get s) (dp_get s) (pu_get V s) (pd_get V s).
+
+  Theorem views_exact_run fixed ops : Forall (op_ok fixed) ops ->
+    let s := run V veq fixed ops in
+    views_exact V veq (views_of s) (fst (a_run V veq ops)) (snd (a_run V veq ops)).
+  Proof.
+    intros Hok. destruct (run_from fixed ops Hok (st0 V) ([], []) Inv_st0 R_init) as (I & Rd & Rp).
+    cbn zeta. unfold views_exact, views_of. cbn [v_des v_dp v_pu v_pd].
+    repeat split; intros k; [apply Rd|apply Rp|apply inv_pu, I|apply inv_pd, I].
+  Qed.
+
+  Theorem inv_run fixed ops : Forall (op_ok fixed) ops -> Inv (run V veq fixed ops).
+  Proof. intros Hok. apply (run_from fixed ops Hok (st0 V) ([], []) Inv_st0 R_init). Qed.
+
+  (* the Len()s count the keys of the views; the iterated views list every key once and agree with Get *)
+  Theorem lens_exact s : Inv s ->
+    (des_len V s = Z.of_nat (length (des_iter s)) /\ NoDup (keys (des_iter s)) /\ forall k, get (des_iter s) k = des_get s k) /\
+    (dp_len V s = Z.of_nat (length (dp_iter V s)) /\ NoDup (keys (dp_iter V s)) /\ forall k, get (dp_iter V s) k = dp_get s k) /\
+    (pu_len V s = Z.of_nat (length (DU s)) /\ NoDup (keys (DU s))) /\
+    (pd_len V s = Z.of_nat (length (ND s)) /\ NoDup (keys (ND s))) /\
+    (des_len V s <= len_upper_bound V s)%Z.
+  Proof.
+    intros I. repeat split; try apply I.
+    - apply NoDup_des_iter; apply I.
+    - intros k. apply get_des_iter.
+    - unfold Model.dp_len, Model.dp_iter, len. rewrite app_length. lia.
+    - unfold Model.dp_iter. apply NoDup_keys_app; try apply I; try (intros k Hk; apply (inv_k s I k), Hk).
+    - intros k. unfold Model.dp_iter, Model.dp_get. apply get_app.
+    - unfold Model.des_len, Model.len_upper_bound, len. rewrite (inv_len s I). unfold Model.des_iter.
+      rewrite app_length.
+      assert (length (filter (fun p => negb (mem (fst p) (DU s))) (AD s)) <= length (AD s))%nat.
+      { generalize (AD s). induction a as [|x a IH]; cbn [filter length]; [lia|]. destruct (negb _); cbn [length]; lia. }
+      lia.
+  Qed.
+
+  (* the abstract maps have the same number of keys as the views (so Len() = |D|, |P|) *)
+  Lemma a_nodup ops : forall DP, NoDup (keys (fst DP)) -> NoDup (keys (snd DP)) ->
+    NoDup (keys (fst (fold_left (a_step V veq) ops DP))) /\ NoDup (keys (snd (fold_left (a_step V veq) ops DP))).
+  Proof.
+    assert (OL : forall kvs (m : amap V), NoDup (keys m) -> NoDup (keys (of_list V kvs m))).
+    { unfold of_list. induction kvs; cbn [fold_left]; auto using NoDup_set. }
+    assert (FV : forall (g : amap V * amap V -> N * act -> amap V * amap V) tr,
+               (forall DP ka, NoDup (keys (fst DP)) -> NoDup (keys (snd DP)) -> NoDup (keys (fst (g DP ka))) /\ NoDup (keys (snd (g DP ka)))) ->
+               forall DP, NoDup (keys (fst DP)) -> NoDup (keys (snd DP)) ->
+               NoDup (keys (fst (fold_left g tr DP))) /\ NoDup (keys (snd (fold_left g tr DP)))).
+    { intros g tr Hg. induction tr; cbn [fold_left]; intros; [auto|]. apply IHtr; apply Hg; auto. }
+    induction ops as [|o ops IH]; intros [D P] HD HP; cbn [fold_left]; [auto|]. cbn [fst snd] in *.
+    apply IH; destruct o; cbn [a_step fst snd]; auto using NoDup_set, NoDup_del, NoDup_nil; try (destruct err; cbn [fst snd]; auto using NoDup_nil);
+      try apply NoDup_nil; try (apply OL; apply NoDup_nil);
+      try (apply FV; [|assumption|assumption]; intros [D' P'] ka; cbn [fst snd]; unfold a_pu_visit, a_pd_visit; intros;
+           destruct (snd ka); cbn [fst snd]; auto; destruct (_ : option V); cbn [fst snd]; auto using NoDup_set, NoDup_del).
+  Qed.
+
+  Theorem lens_abstract fixed ops : Forall (op_ok fixed) ops ->
+    let s := run V veq fixed ops in
+    des_len V s = len (fst (a_run V veq ops)) /\ dp_len V s = len (snd (a_run V veq ops)).
+  Proof.
+    intros Hok. destruct (run_from fixed ops Hok (st0 V) ([], []) Inv_st0 R_init) as (I & Rd & Rp).
+    destruct (a_nodup ops ([], [])) as (ND & NP); try apply NoDup_nil.
+    destruct (lens_exact _ I) as ((L1 & N1 & G1) & (L2 & N2 & G2) & _).
+    cbn zeta. fold (run V veq fixed ops) in *. fold (a_run V veq ops) in *.
+    split; [rewrite L1|rewrite L2]; unfold len; f_equal; apply card_same; auto; intros k.
+    - rewrite G1. apply oveq_dom, Rd.
+    - rewrite G2. apply oveq_dom, Rp.
+  Qed.
+End P.
+
+(* ---------- corollaries ---------- *)
+Section Exact.
+  Variable V : Type.
+  Variable veq : V -> V -> bool.
+  Hypothesis veq_spec : forall a b, veq a b = true <-> a = b.     (* valuesEqual is identity, e.g. (==) *)
+
+  Lemma spec_refl a : veq a a = true. Proof. apply veq_spec. reflexivity. Qed.
+  Lemma spec_sym a b : veq a b = veq b a.
+  Proof.
+    destruct (veq a b) eqn:E, (veq b a) eqn:E'; try reflexivity.
+    - apply veq_spec in E. subst. rewrite spec_refl in E'. discriminate.
+    - apply veq_spec in E'. subst. rewrite spec_refl in E. discriminate.
+  Qed.
+  Lemma spec_trans a b c : veq a b = true -> veq b c = true -> veq a c = true.
+  Proof. rewrite !veq_spec. congruence. Qed.
+
+  Theorem views_identical_run fixed ops : Forall (op_ok V fixed) ops ->
+    let s := run V veq fixed ops in
+    (forall k, des_get V s k = get (fst (a_run V veq ops)) k) /\
+    (forall k, dp_get V s k = get (snd (a_run V veq ops)) k) /\
+    (forall k, pu_get V s k = pending_update V veq (get (fst (a_run V veq ops))) (get (snd (a_run V veq ops))) k) /\
+    (forall k, pd_get V s k = pending_del V (get (fst (a_run V veq ops))) (get (snd (a_run V veq ops))) k).
+  Proof.
+    intros Hok. cbn zeta.
+    destruct (views_exact_run V veq spec_refl spec_sym spec_trans fixed ops Hok) as (H1 & H2 & H3 & H4).
+    cbn [v_des v_dp v_pu v_pd views_of] in *.
+    assert (E : forall a b, opt_veq V veq a b = true -> a = b).
+    { intros [a|] [b|]; cbn; try congruence. intros H. apply veq_spec in H. congruence. }
+    assert (E1 : forall k, des_get V (run V veq fixed ops) k = get (fst (a_run V veq ops)) k) by (intros; apply E, H1).
+    assert (E2 : forall k, dp_get V (run V veq fixed ops) k = get (snd (a_run V veq ops)) k) by (intros; apply E, H2).
+    repeat split; auto; intros k.
+    - rewrite H3. unfold pending_update. rewrite E1, E2. reflexivity.
+    - rewrite H4. unfold pending_del. rewrite E1, E2. reflexivity.
+  Qed.
+End Exact.
+
+Section More.
+  Variable V : Type.
+  Variable veq : V -> V -> bool.
+  Hypothesis veq_refl : forall a, veq a a = true.
+  Hypothesis veq_sym : forall a b, veq a b = veq b a.
+  Hypothesis veq_trans : forall a b c, veq a b = true -> veq b c = true -> veq a c = true.
+
+  Lemma all_ok_fixed (ops : list (op V)) : Forall (op_ok V true) ops.
+  Proof. apply Forall_forall. intros o _. destruct o; cbn; auto. Qed.
+
+  Theorem views_exact_repaired ops :
+    views_exact V veq (views_of V (run V veq true ops)) (fst (a_run V veq ops)) (snd (a_run V veq ops)).
+  Proof. apply (views_exact_run V veq veq_refl veq_sym veq_trans true ops (all_ok_fixed ops)). Qed.
+
+  (* internal maps after any run: pairwise disjoint as the struct comment requires *)
+  Theorem internal_disjoint_run fixed ops : Forall (op_ok V fixed) ops ->
+    let s := run V veq fixed ops in
+    forall k,
+      (get (AD s) k <> None -> get (ND s) k = None) /\
+      (get (DU s) k <> None -> get (ND s) k = None) /\
+      (forall a d, get (AD s) k = Some a -> get (DU s) k = Some d -> veq a d = false).
+  Proof. intros Hok s k. apply (inv_k V veq _ (inv_run V veq veq_refl veq_sym veq_trans fixed ops Hok) k). Qed.
+
+  Theorem lens_run fixed ops : Forall (op_ok V fixed) ops ->
+    let s := run V veq fixed ops in
+    (des_len V s = Z.of_nat (length (des_iter V s)) /\ NoDup (keys (des_iter V s)) /\ forall k, get (des_iter V s) k = des_get V s k) /\
+    (dp_len V s = Z.of_nat (length (dp_iter V s)) /\ NoDup (keys (dp_iter V s)) /\ forall k, get (dp_iter V s) k = dp_get V s k) /\
+    (pu_len V s = Z.of_nat (length (DU s)) /\ NoDup (keys (DU s))) /\
+    (pd_len V s = Z.of_nat (length (ND s)) /\ NoDup (keys (ND s))) /\
+    (des_len V s <= len_upper_bound V s)%Z /\
+    des_len V s = len (fst (a_run V veq ops)) /\ dp_len V s = len (snd (a_run V veq ops)).
+  Proof.
+    intros Hok. cbn zeta.
+    pose proof (lens_exact V veq _ (inv_run V veq veq_refl veq_sym veq_trans fixed ops Hok)) as (A & B & C & D & E).
+    pose proof (lens_abstract V veq veq_refl veq_sym veq_trans fixed ops Hok) as (F & G).
+    repeat split; try apply A; try apply B; try apply C; try apply D; assumption.
+  Qed.
+
+  (* an UpdateDataplane answer moves exactly the visited key *)
+  Theorem iter_update_moves s k v : Inv V veq s -> pu_get V s k = Some v ->
+    let s' := pu_visit V s (k, AUpd) in
+    pu_get V s' k = None /\ dp_get V s' k = Some v /\ des_get V s' k = des_get V s k /\ des_get V s k = Some v /\
+    (forall k', k' <> k -> pu_get V s' k' = pu_get V s k' /\ dp_get V s' k' = dp_get V s k' /\
+                          des_get V s' k' = des_get V s k' /\ pd_get V s' k' = pd_get V s k') /\
+    pd_get V s' k = pd_get V s k /\ des_len V s' = des_len V s /\ Inv V veq s'.
+  Proof using All.
+    intros I Hp. cbn zeta. unfold pu_get in Hp.
+    assert (Hd : des_get V s k = Some v) by (unfold des_get; rewrite Hp; reflexivity).
+    split; [|split; [|split; [|split; [|split; [|split; [|split]]]]]].
+    - unfold pu_get, pu_visit. rewrite Hp. cbn [DU]. rewrite get_del, N.eqb_refl. reflexivity.
+    - rewrite pu_visit_dp. cbn [fst snd]. rewrite Hp, N.eqb_refl. reflexivity.
+    - apply pu_visit_get.
+    - assumption.
+    - intros k' Hn. split; [|split; [|split]].
+      + unfold pu_get, pu_visit. rewrite Hp. cbn [DU]. rewrite get_del. destruct (N.eqb_spec k k'); [congruence|reflexivity].
+      + rewrite pu_visit_dp. cbn [fst snd]. rewrite Hp. destruct (N.eqb_spec k k'); [congruence|reflexivity].
+      + apply pu_visit_get.
+      + unfold pd_get, pu_visit. rewrite Hp. reflexivity.
+    - unfold pd_get, pu_visit. rewrite Hp. reflexivity.
+    - unfold des_len, pu_visit. rewrite Hp. reflexivity.
+    - apply pu_visit_inv; assumption.
+  Qed.
+End More.
+
+(* ---------- the pinned ReplaceAllIter and an iterator that shows a key twice ---------- *)
+Definition dup_ops : list (op N) := [DesSet 1 2; Replace [(1, 2); (1, 2)] false].
+
+Theorem replace_duplicate_key_refuted :
+  exists ops : list (op N),
+    ~ views_exact N N.eqb (views_of N (run N N.eqb false ops)) (fst (a_run N N.eqb ops)) (snd (a_run N N.eqb ops)).
+Proof.
+  exists dup_ops. intros (_ & _ & _ & H). specialize (H 1). vm_compute in H. discriminate.
+Qed.
+
+(* what goes wrong, concretely: key 1 is desired, yet reported as a pending deletion, and Len() counts it twice *)
+Example replace_duplicate_key_witness :
+  let s := run N N.eqb false dup_ops in
+  des_get N s 1 = Some 2 /\ pd_get N s 1 = Some 2 /\ dp_len N s = 2%Z /\ snd (a_run N N.eqb dup_ops) = [(1, 2)].
+Proof. vm_compute. repeat split. Qed.
+
+(* the hypotheses of the main theorems are satisfiable by a non-trivial run *)
+Definition ex_ops : list (op N) :=
+  [DesSet 1 2; DesSet 2 0; DpSet 2 1; DpSet 3 1; Replace [(3, 0); (2, 1); (4, 2)] true; IterDel [(3, AUpd); (4, ANoOp)];
+   IterUpd [(1, 2, AUpd); (2, 0, AStop)]; DesDel 1].
+Example ex_ops_ok : Forall (op_ok N false) ex_ops /\
+  (let s := run N N.eqb false ex_ops in
+   kv_sort (des_iter N s) = [(2, 0)] /\ kv_sort (dp_iter N s) = [(1, 2); (2, 1); (4, 2)] /\
+   kv_sort (DU s) = [(2, 0)] /\ kv_sort (ND s) = [(1, 2); (4, 2)]).
+Proof.
+  split; [|vm_compute; repeat split].
+  unfold ex_ops. repeat (apply Forall_cons || apply Forall_nil); cbn [op_ok]; try exact I.
+  right. cbn [keys map fst]. repeat (apply NoDup_cons || apply NoDup_nil); cbn [In]; intuition discriminate.
+Qed.
